@@ -145,8 +145,12 @@ def judge(ctx, case, r, prefix="C08"):
             return
     elif got_type is not None and got_type != lay.name:
         sig = "%s|wrong-layout-chosen|%s->%s" % (prefix, lay.name, got_type)
-        if case["full"]:
-            sig += "|full-width-fields"
+        other = fsgen.LAYOUTS.get(got_type)
+        fsz = sum(len(r) for r, _ in case["recs"])
+        if case["full"] and other is not None and fsz % other.size == 0:
+            # every string field filled to its width (no NUL) and the file size is also a multiple of
+            # the other layout's record size: the scoring heuristic cannot tell them apart
+            sig = "%s|wrong-layout-chosen|full-width-fields-and-size-divisible-by-both" % prefix
         ctx.violation(sig, "file of %d %s records read as %s" % (case["n"], lay.name, got_type), src_dir=case["d"], info=info)
         return
     out = r.out
@@ -223,4 +227,4 @@ def run(ctx):
                 "plain/gz/bz2/xz/lz4/tar x windows on record instants; every printed line parsed back into fields; distinct = "
                 "(layout, time mode, container, blocksz, window, full-width, nulls, size class)")
     ctx.assumptions = ["vlib/fsgen.py layout tables restate the C ABI sizes and offsets independently of the repository"]
-    run_cases(ctx, s4, ctx.pick(900, 12000), 0.3, "C08")
+    run_cases(ctx, s4, ctx.pick(4000, 40000), 0.3, "C08")
